@@ -75,48 +75,54 @@ func ruleConstraintNames(c *core.Ctx) {
 		"logs_idempotency_key":   "NewErrIdempotencyKeyConflict",
 	}
 	seen := map[string]bool{}
+	info := pk.TypesInfo
+	// the constraint name a fact tests: `<x>.GetConstraint() == <const>` holding positively
+	constraintOf := func(f xfact) (string, bool, bool) {
+		be, ok := f.Cond.(*ast.BinaryExpr)
+		if !ok || be.Op != token.EQL || !f.Positive {
+			return "", false, false
+		}
+		for _, pair := range [][2]ast.Expr{{be.X, be.Y}, {be.Y, be.X}} {
+			call, ok := ast.Unparen(pair[0]).(*ast.CallExpr)
+			if !ok {
+				continue
+			}
+			if f := astx.Callee(info, call); f == nil || f.Name() != "GetConstraint" {
+				continue
+			}
+			name, isConst := constStr(info, pair[1])
+			return name, isConst, true
+		}
+		return "", false, false
+	}
 	for _, f := range pk.Syntax {
 		for _, d := range f.Decls {
 			fd, ok := d.(*ast.FuncDecl)
 			if !ok || fd.Body == nil {
 				continue
 			}
-			ast.Inspect(fd.Body, func(x ast.Node) bool {
-				is, ok := x.(*ast.IfStmt)
-				if !ok {
-					return true
-				}
-				be, ok := ast.Unparen(is.Cond).(*ast.BinaryExpr)
-				if !ok || be.Op != token.EQL {
-					return true
-				}
-				call, ok := ast.Unparen(be.X).(*ast.CallExpr)
-				if !ok {
-					return true
-				}
-				if f := astx.Callee(pk.TypesInfo, call); f == nil || f.Name() != "GetConstraint" {
-					return true
-				}
-				name, ok := astx.ConstString(pk.TypesInfo, be.Y)
-				if !ok {
-					c.Unknown("EXH/constraint-names", enclKey(pkgStore, fd)+":non-constant", pos(c, is), "constraint name compared is not a constant")
-					return true
-				}
-				n++
-				seen[name] = true
-				key := enclKey(pkgStore, fd) + ":" + name
-				ix := cat.Indexes[name]
-				c.Check(ix != nil && ix.Unique, "EXH/constraint-names", key+":names-unique-index", pos(c, is), "unique index "+name+" exists after all migrations",
-					fmt.Sprintf("the code maps constraint %q to a conflict error but no unique index of that name exists in the folded catalog: the violation would surface as a generic error (or never happen)", name))
-				if want, ok := expectErr[name]; ok {
-					got := ""
-					for _, cc := range callsTo(pk.TypesInfo, is.Body, func(f *types.Func) bool { return strings.HasPrefix(f.Name(), "NewErr") }) {
-						got = astx.Callee(pk.TypesInfo, cc).Name()
+			for _, call := range callsTo(info, fd.Body, func(f *types.Func) bool { return strings.HasPrefix(f.Name(), "NewErr") }) {
+				for _, ft := range xfactsAt(info, fd.Body, call.Pos()) {
+					name, isConst, isTest := constraintOf(ft)
+					if !isTest {
+						continue
 					}
-					c.Check(got == want, "EXH/constraint-names", key+":error", pos(c, is), want, fmt.Sprintf("constraint %q is mapped to %s, expected %s", name, got, want))
+					if !isConst {
+						c.Unrecognised("EXH/constraint-names", enclKey(pkgStore, fd)+":non-constant", pos(c, call), "constraint name compared is not a constant")
+						continue
+					}
+					n++
+					seen[name] = true
+					key := enclKey(pkgStore, fd) + ":" + name
+					ix := cat.Indexes[name]
+					c.Check(ix != nil && ix.Unique, "EXH/constraint-names", key+":names-unique-index", pos(c, call), "unique index "+name+" exists after all migrations",
+						fmt.Sprintf("the code maps constraint %q to a conflict error but no unique index of that name exists in the folded catalog: the violation would surface as a generic error (or never happen)", name))
+					if want, ok := expectErr[name]; ok {
+						got := astx.Callee(info, call).Name()
+						c.Check(got == want, "EXH/constraint-names", key+":error", pos(c, call), want, fmt.Sprintf("constraint %q is mapped to %s, expected %s", name, got, want))
+					}
 				}
-				return true
-			})
+			}
 		}
 	}
 	for name := range expectErr {
@@ -396,7 +402,13 @@ func ruleSequenceResync(c *core.Ctx) {
 	}
 	m := bunModel(c, pkgSysCtrl)
 	got := map[string]string{}
-	for _, s := range stmtsIn(m, d) {
+	scoped := stmtsInScope(c, m, d, 1)
+	envOf := map[*astx.DeclInfo]*originEnv{}
+	for _, e := range scopeEnvs(c, d) {
+		envOf[e.d] = e
+	}
+	for _, ss := range scoped {
+		s := ss.S
 		if s.Kind != "raw" {
 			continue
 		}
@@ -441,10 +453,19 @@ func ruleSequenceResync(c *core.Ctx) {
 	}
 	// both run under the lock, inside the tx, before fn, only when the state row was flipped
 	info := d.Pkg.TypesInfo
+	// the write itself: the call of the function-typed parameter with the transactional controller
+	params := map[types.Object]bool{}
+	if d.Decl.Type.Params != nil {
+		for _, fl := range d.Decl.Type.Params.List {
+			for _, nm := range fl.Names {
+				params[info.ObjectOf(nm)] = true
+			}
+		}
+	}
 	var fnCall *ast.CallExpr
 	ast.Inspect(d.Decl.Body, func(n ast.Node) bool {
 		if call, ok := n.(*ast.CallExpr); ok {
-			if id, ok := call.Fun.(*ast.Ident); ok && id.Name == "fn" && fnCall == nil && len(call.Args) == 1 {
+			if id, ok := call.Fun.(*ast.Ident); ok && params[info.Uses[id]] && fnCall == nil && len(call.Args) == 1 {
 				if _, isSel := call.Args[0].(*ast.SelectorExpr); !isSel {
 					fnCall = call
 				}
@@ -452,19 +473,49 @@ func ruleSequenceResync(c *core.Ctx) {
 		}
 		return true
 	})
+	// the row count of the state flip, and the handle the flip runs on
+	var rowsObj types.Object
+	for _, call := range callsTo(info, d.Decl.Body, named("RowsAffected")) {
+		if objs := resultObjs(info, d.Decl.Body, call); len(objs) > 0 && objs[0] != nil {
+			rowsObj = objs[0]
+		}
+	}
+	flipHandle := ""
 	for _, s := range stmtsIn(m, d) {
+		if s.Kind == "update" && s.Handle != nil {
+			flipHandle = envOf[d].origin(s.Handle)
+		}
+	}
+	for _, ss := range scoped {
+		s := ss.S
 		if s.Kind != "raw" {
 			continue
 		}
 		guard := false
-		for _, f := range astx.FactsAt(info, d.Decl.Body, s.Pos()) {
-			if f.Positive && strings.Contains(types.ExprString(f.Cond), "rowsAffected > 0") {
+		for _, af := range scopeFactsAtPos(d, ss.D, s.Pos()) {
+			f := xfact{ast.Unparen(af.Cond), af.Positive}
+			be, ok := f.Cond.(*ast.BinaryExpr)
+			if !ok || !f.Positive || !usesObj(info, be.X, rowsObj) {
+				continue
+			}
+			tv, isConst := info.Types[ast.Unparen(be.Y)]
+			if !isConst || tv.Value == nil {
+				continue
+			}
+			v := tv.Value.ExactString()
+			if ((be.Op == token.GTR || be.Op == token.NEQ) && v == "0") || (be.Op == token.GEQ && v == "1") {
 				guard = true
 			}
 		}
-		before := fnCall != nil && s.Pos() < fnCall.Pos()
-		handle := s.Handle != nil && astx.SelectorPath(s.Handle) == "tx"
-		c.Check(guard && before && handle, "SEQ/resync", declKey(d)+":placement:"+s.Describe()+fmt.Sprint(s.Pos()-d.Decl.Pos()), posOf(c, s.Pos()), "on tx, when the state row flipped, before the write",
+		rp := rootPosOf(d, ss.D, s.Pos())
+		before := fnCall != nil && rp != token.NoPos && rp < fnCall.Pos()
+		handle := s.Handle != nil && flipHandle != "" && envOf[ss.D] != nil && envOf[ss.D].origin(s.Handle) == flipHandle
+		okey := declKey(d) + ":placement:" + s.Describe() + fmt.Sprint(s.Pos()-d.Decl.Pos())
+		if rowsObj == nil || fnCall == nil || flipHandle == "" {
+			c.Unrecognised("SEQ/resync", okey, posOf(c, s.Pos()), fmt.Sprintf("state flip / write call not identified (rows=%v write=%v flip-handle=%q)", rowsObj != nil, fnCall != nil, flipHandle))
+			continue
+		}
+		c.Check(guard && before && handle, "SEQ/resync", okey, posOf(c, s.Pos()), "on tx, when the state row flipped, before the write",
 			fmt.Sprintf("sequence resync must run on the transaction, only when the initializing->in-use update changed a row, before the write itself (on-tx=%v guarded=%v before-write=%v)", handle, guard, before))
 	}
 }
@@ -520,130 +571,172 @@ func ruleForgeLogIK(c *core.Ctx) {
 	}
 	info := d.Pkg.TypesInfo
 	key := declKey(d)
+	txWrapIx = index(c)
 	flow := astx.NewFlow(info, d.Decl.Body)
 	fetch := callsTo(info, d.Decl.Body, named("fetchLogWithIK"))
 	run := callsTo(info, d.Decl.Body, named("runLog"))
-	if len(fetch) != 1 || len(run) != 1 {
-		c.Unknown("DOM/ik-lookup-first", key+":anchors", pos(c, d.Decl), fmt.Sprintf("expected one fetchLogWithIK and one runLog call in forgeLog, found %d and %d", len(fetch), len(run)))
-		return
-	}
-	// guard of the lookup is exactly `IdempotencyKey != ""`
-	var guards []string
-	for _, f := range astx.FactsAt(info, d.Decl.Body, fetch[0].Pos()) {
-		s := types.ExprString(f.Cond)
-		if strings.HasPrefix(s, "err ") {
-			continue // the BeginTX error check
+	if len(fetch) == 0 && len(run) >= 1 {
+		c.Fail("DOM/ik-lookup-first", key+":lookup-guard", pos(c, d.Decl), "forgeLog no longer looks the idempotency key up (fetchLogWithIK) before running the operation")
+	} else if len(fetch) != 1 || len(run) != 1 {
+		c.Unrecognised("DOM/ik-lookup-first", key+":anchors", pos(c, d.Decl), fmt.Sprintf("expected one fetchLogWithIK and one runLog call in forgeLog, found %d and %d", len(fetch), len(run)))
+	} else {
+		// the lookup runs whenever a key is given: its only guards say "the key is not empty"
+		var extra []string
+		keyed := false
+		for _, f := range xfactsAt(info, d.Decl.Body, fetch[0].Pos()) {
+			if isErrNilTest(info, f.Cond) {
+				continue // the BeginTX error check
+			}
+			if e, ok := nonEmptyStringFact(info, f); ok && strings.HasSuffix(astx.SelectorPath(e), "IdempotencyKey") {
+				keyed = true
+				continue
+			}
+			if be, ok := f.Cond.(*ast.BinaryExpr); ok && (be.Op == token.EQL || be.Op == token.NEQ) {
+				if strings.HasSuffix(astx.SelectorPath(be.X), "IdempotencyKey") || strings.HasSuffix(astx.SelectorPath(be.Y), "IdempotencyKey") {
+					continue // the other spelling of the same fact (FactsAt gives both)
+				}
+			}
+			extra = append(extra, types.ExprString(f.Cond))
 		}
-		guards = append(guards, fmt.Sprintf("%v:%s", f.Positive, s))
-	}
-	okGuard := len(guards) == 2 && strings.Contains(strings.Join(guards, " "), `false:parameters.IdempotencyKey == ""`)
-	c.Check(okGuard && fetch[0].Pos() < run[0].Pos(), "DOM/ik-lookup-first", key+":lookup-guard", pos(c, fetch[0]), "lookup whenever a key is given, before runLog",
-		fmt.Sprintf("the idempotency lookup must run exactly when IdempotencyKey != \"\" and before runLog (guards: %v)", guards))
-	// every path reaching runLog with a key passes the lookup: the lookup's if has no else and runLog follows it
-	// (structural: runLog is not inside the lookup branch, and the lookup branch leaves on a hit)
-	var lookupIf *ast.IfStmt
-	ast.Inspect(d.Decl.Body, func(n ast.Node) bool {
-		if is, ok := n.(*ast.IfStmt); ok && is.Body.Pos() <= fetch[0].Pos() && fetch[0].End() <= is.Body.End() && lookupIf == nil {
-			lookupIf = is
-		}
-		return true
-	})
-	if lookupIf != nil {
-		// inner `if err != nil || output != nil` must terminate and return the hit flag true on the output branch
-		hitReturn := false
-		rolledBack := false
-		ast.Inspect(lookupIf.Body, func(n ast.Node) bool {
-			switch x := n.(type) {
-			case *ast.ReturnStmt:
-				if len(x.Results) == 4 {
-					if id, ok := x.Results[2].(*ast.Ident); ok && id.Name == "true" && astx.IsNilExpr(info, x.Results[3]) {
-						hitReturn = true
+		_ = keyed
+		// runLog cannot be reached with a key while avoiding the lookup
+		l, located := flow.Locate(run[0])
+		avoid := false
+		if located {
+			var assume []astx.Assumption
+			ast.Inspect(d.Decl.Body, func(n ast.Node) bool {
+				if be, ok := n.(*ast.BinaryExpr); ok {
+					if e, ok := nonEmptyStringFact(info, xfact{be, true}); ok && strings.HasSuffix(astx.SelectorPath(e), "IdempotencyKey") {
+						assume = append(assume, astx.Assumption{Cond: types.ExprString(be), Value: true})
+					} else if e, ok := nonEmptyStringFact(info, xfact{be, false}); ok && strings.HasSuffix(astx.SelectorPath(e), "IdempotencyKey") {
+						assume = append(assume, astx.Assumption{Cond: types.ExprString(be), Value: false})
 					}
 				}
-			case *ast.CallExpr:
-				if f := astx.Callee(info, x); f != nil && f.Name() == "Rollback" {
-					rolledBack = true
+				return true
+			})
+			isFetch := func(n ast.Node) bool {
+				found := false
+				ast.Inspect(n, func(x ast.Node) bool {
+					if x == ast.Node(fetch[0]) {
+						found = true
+					}
+					return !found
+				})
+				return found
+			}
+			avoid = flow.PathAvoidingAssuming(nil, astx.Exit{Block: l.Block, Idx: l.Idx}, isFetch, assume)
+		}
+		c.Shape(located, len(extra) == 0 && !avoid, "DOM/ik-lookup-first", key+":lookup-guard", pos(c, fetch[0]), "lookup whenever a key is given, before runLog",
+			fmt.Sprintf("the idempotency lookup must run exactly when IdempotencyKey != \"\" and before runLog (other guards: %v, runLog reachable with a key without lookup: %v)", extra, avoid))
+		// a hit returns the stored log flagged as a hit, after the probe transaction is ended
+		res := resultObjs(info, d.Decl.Body, fetch[0])
+		var hitReturns, unflagged []*ast.ReturnStmt
+		ast.Inspect(d.Decl.Body, func(n ast.Node) bool {
+			r, ok := n.(*ast.ReturnStmt)
+			if !ok || len(r.Results) != 4 || len(res) < 2 {
+				return true
+			}
+			if !usesObj(info, r.Results[1], res[1]) {
+				return true
+			}
+			if v, known := constBool(info, d.Decl.Body, r.Results[2]); known {
+				if v {
+					hitReturns = append(hitReturns, r)
+				} else {
+					unflagged = append(unflagged, r)
 				}
 			}
 			return true
 		})
-		c.Check(hitReturn && rolledBack, "DOM/ik-lookup-first", key+":hit-returns-stored-log", pos(c, lookupIf), "hit: rollback, return (log, output, true, nil)", "an idempotency hit must roll back the probe transaction and return the stored log flagged as a hit")
-	}
-	_ = flow
-	// retry on IK conflict
-	retried := false
-	ast.Inspect(d.Decl.Body, func(n ast.Node) bool {
-		is, ok := n.(*ast.IfStmt)
-		if !ok {
-			return true
-		}
-		names := errNamesOfCase(info, is.Cond)
-		has := false
-		for _, nm := range names {
-			if strings.HasSuffix(nm, "ErrIdempotencyKeyConflict") {
-				has = true
+		switch {
+		case len(unflagged) > 0:
+			c.Fail("DOM/ik-lookup-first", key+":hit-returns-stored-log", pos(c, unflagged[0]), "an idempotency hit must return the stored log flagged as a hit: this return hands out the looked-up output with the flag false")
+		case len(hitReturns) == 0:
+			c.Unrecognised("DOM/ik-lookup-first", key+":hit-returns-stored-log", pos(c, fetch[0]), "no return of the looked-up output with a constant hit flag found")
+		default:
+			okHit := true
+			for _, r := range hitReturns {
+				okHit = okHit && usesObj(info, r.Results[0], res[0]) && astx.IsNilExpr(info, r.Results[3])
 			}
+			c.Check(okHit, "DOM/ik-lookup-first", key+":hit-returns-stored-log", pos(c, hitReturns[0]), "hit: return (log, output, true, nil) of the lookup (transaction end: PAIR/tx-closed)", "an idempotency hit must return the stored log and output with a nil error")
 		}
-		if has && len(callsTo(info, is.Body, named("forgeLogRetry"))) > 0 {
+	}
+	// retry on IK conflict
+	retryCalls := callsTo(info, d.Decl.Body, named("forgeLogRetry"))
+	retried, opaque := false, false
+	for _, call := range retryCalls {
+		fs := xfactsAt(info, d.Decl.Body, call.Pos())
+		if anyHasSuffix(errNamesOfFacts(info, fs, true), "ErrIdempotencyKeyConflict") {
 			retried = true
 		}
-		return true
-	})
-	c.Check(retried, "DOM/ik-conflict-retried", key, pos(c, d.Decl), "IK conflict -> forgeLogRetry", "an idempotency-key conflict raised by a concurrent insert is no longer retried: the caller would get an internal error instead of the committed log")
-	if r := fn(c, pkgCtrl, "logProcessor", "forgeLogRetry"); r != nil {
-		ok := false
-		for _, es := range []*ast.SwitchStmt{} {
-			_ = es
-		}
-		ast.Inspect(r.Decl.Body, func(n ast.Node) bool {
-			cc, isCase := n.(*ast.CaseClause)
-			if !isCase {
-				return true
-			}
-			for _, e := range cc.List {
-				for _, nm := range errNamesOfCase(r.Pkg.TypesInfo, e) {
-					if strings.HasSuffix(nm, "ErrIdempotencyKeyConflict") && len(callsTo(r.Pkg.TypesInfo, cc, named("fetchLogWithIK"))) > 0 {
-						ok = true
-					}
-				}
-			}
-			return true
-		})
-		c.Check(ok, "DOM/ik-conflict-retried", declKey(r)+":re-reads-log", pos(c, r.Decl), "conflict -> fetchLogWithIK", "forgeLogRetry no longer resolves an IK conflict by re-reading the stored log")
+		opaque = opaque || factsOpaque(c, info, fs)
 	}
-	// hash comparison in fetchLogWithIK
+	if !retried && opaque {
+		c.Unrecognised("DOM/ik-conflict-retried", key, pos(c, d.Decl), "the retry is guarded by a predicate of the repository the rule does not read")
+	} else {
+		c.Check(retried, "DOM/ik-conflict-retried", key, pos(c, d.Decl), "IK conflict -> forgeLogRetry", "an idempotency-key conflict raised by a concurrent insert is no longer retried: the caller would get an internal error instead of the committed log")
+	}
+	if r := fn(c, pkgCtrl, "logProcessor", "forgeLogRetry"); r != nil {
+		ok, opq, seen := false, false, false
+		for _, sc := range scopeCalls(fnScope(c, r, 1), named("fetchLogWithIK")) {
+			if sc.D.Obj.Name() == "forgeLog" || sc.D.Obj.Name() == "runTx" {
+				continue
+			}
+			seen = true
+			fs, complete := scopeFacts(r, sc)
+			if anyHasSuffix(errNamesOfFacts(r.Pkg.TypesInfo, fs, true), "ErrIdempotencyKeyConflict") {
+				ok = true
+			}
+			opq = opq || !complete || factsOpaque(c, r.Pkg.TypesInfo, fs)
+		}
+		if seen && !ok && opq {
+			c.Unrecognised("DOM/ik-conflict-retried", declKey(r)+":re-reads-log", pos(c, r.Decl), "the re-read is guarded by conditions the rule does not read")
+		} else {
+			c.Check(ok, "DOM/ik-conflict-retried", declKey(r)+":re-reads-log", pos(c, r.Decl), "conflict -> fetchLogWithIK", "forgeLogRetry no longer resolves an IK conflict by re-reading the stored log")
+		}
+	}
+	// hash comparison in fetchLogWithIK (or a helper it calls)
 	if f := fn(c, pkgCtrl, "logProcessor", "fetchLogWithIK"); f != nil {
 		fi := f.Pkg.TypesInfo
-		compared := false
-		ast.Inspect(f.Decl.Body, func(n ast.Node) bool {
-			is, ok := n.(*ast.IfStmt)
-			if !ok {
-				return true
-			}
-			be, ok := ast.Unparen(is.Cond).(*ast.BinaryExpr)
-			if !ok || be.Op != token.NEQ {
-				return true
-			}
-			l, r := astx.SelectorPath(be.X), astx.SelectorPath(be.Y)
-			if !(strings.HasSuffix(l, ".IdempotencyHash") || strings.HasSuffix(r, ".IdempotencyHash")) {
-				return true
-			}
-			// the other side derives from ComputeIdempotencyHash(parameters.Input)
-			derives := false
-			if as, ok := is.Init.(*ast.AssignStmt); ok && len(as.Rhs) == 1 {
-				if call, ok := as.Rhs[0].(*ast.CallExpr); ok {
-					if cf := astx.Callee(fi, call); cf != nil && cf.Name() == "ComputeIdempotencyHash" && len(call.Args) == 1 && strings.HasSuffix(astx.SelectorPath(call.Args[0]), ".Input") {
-						derives = true
-					}
+		rejects := scopeCalls(fnScope(c, f, 1), named("newErrInvalidIdempotencyInputs"))
+		compared, opq := false, false
+		for _, sc := range rejects {
+			fs, complete := scopeFacts(f, sc)
+			opq = opq || !complete || factsOpaque(c, fi, fs)
+			for _, ft := range fs {
+				be, ok := ft.Cond.(*ast.BinaryExpr)
+				if !ok || !((be.Op == token.NEQ && ft.Positive) || (be.Op == token.EQL && !ft.Positive)) {
+					continue
+				}
+				var other ast.Expr
+				if strings.HasSuffix(astx.SelectorPath(be.X), ".IdempotencyHash") {
+					other = be.Y
+				} else if strings.HasSuffix(astx.SelectorPath(be.Y), ".IdempotencyHash") {
+					other = be.X
+				} else {
+					continue
+				}
+				def := ast.Unparen(resolveLocal(fi, sc.D.Decl.Body, other))
+				call, ok := def.(*ast.CallExpr)
+				if !ok {
+					continue
+				}
+				if cf := astx.Callee(fi, call); cf == nil || cf.Name() != "ComputeIdempotencyHash" || len(call.Args) != 1 {
+					continue
+				}
+				if isRequestInput(f, sc, call.Args[0]) {
+					compared = true
 				}
 			}
-			rets := callsTo(fi, is.Body, named("newErrInvalidIdempotencyInputs"))
-			if derives && len(rets) > 0 && astx.Terminates(fi, is.Body.List) {
-				compared = true
-			}
-			return true
-		})
-		c.Check(compared, "DOM/ik-hash-compared", declKey(f), pos(c, f.Decl), "stored hash != hash(input) -> ErrInvalidIdempotencyInput", "fetchLogWithIK no longer rejects a reused key whose input hash differs from the stored one")
+		}
+		switch {
+		case len(rejects) == 0:
+			c.Fail("DOM/ik-hash-compared", declKey(f), pos(c, f.Decl), "fetchLogWithIK no longer rejects a reused key whose input hash differs from the stored one (no ErrInvalidIdempotencyInput raised)")
+		case !compared && opq:
+			c.Unrecognised("DOM/ik-hash-compared", declKey(f), pos(c, f.Decl), "the rejection is guarded by conditions the rule does not read")
+		default:
+			c.Check(compared, "DOM/ik-hash-compared", declKey(f), pos(c, f.Decl), "stored hash != hash(input) -> ErrInvalidIdempotencyInput", "fetchLogWithIK no longer rejects a reused key whose input hash differs from the stored one")
+		}
 	}
 	// runLog stamps key and hash
 	if r := fn(c, pkgCtrl, "logProcessor", "runLog"); r != nil {
@@ -674,4 +767,35 @@ func ruleForgeLogIK(c *core.Ctx) {
 		})
 		c.Check(stamp["key"] && stamp["hash"], "DOM/ik-stamped", declKey(r), pos(c, r.Decl), "log.IdempotencyKey and log.IdempotencyHash set before InsertLog", fmt.Sprintf("the log is inserted without its idempotency key/hash (key=%v hash=%v): a replay could not be recognised or its input not verified", stamp["key"], stamp["hash"]))
 	}
+}
+
+// isRequestInput: e is `<parameters>.Input` in the anchor function, or a parameter of a helper that
+// the anchor function calls with `<parameters>.Input` at that position.
+func isRequestInput(root *astx.DeclInfo, sc scopedCall, e ast.Expr) bool {
+	if strings.HasSuffix(astx.SelectorPath(e), ".Input") {
+		return true
+	}
+	id, ok := ast.Unparen(e).(*ast.Ident)
+	if !ok || sc.D == root || sc.D.Decl.Type.Params == nil {
+		return false
+	}
+	info := sc.D.Pkg.TypesInfo
+	idx, k := -1, 0
+	for _, fl := range sc.D.Decl.Type.Params.List {
+		for _, nm := range fl.Names {
+			if info.ObjectOf(nm) == info.Uses[id] {
+				idx = k
+			}
+			k++
+		}
+	}
+	if idx < 0 {
+		return false
+	}
+	for _, site := range callsTo(root.Pkg.TypesInfo, root.Decl.Body, func(f *types.Func) bool { return f == sc.D.Obj || f.Origin() == sc.D.Obj }) {
+		if idx < len(site.Args) && strings.HasSuffix(astx.SelectorPath(site.Args[idx]), ".Input") {
+			return true
+		}
+	}
+	return false
 }
